@@ -155,21 +155,26 @@ struct WaypointCostP {
   // (e.g. at the initial guess) while its gradient does not (a "skip when the cost is zero" shortcut shows only there)
   double lin = 0;
   Eigen::MatrixXd ref;
+  // every > 1: a cost on every `every`-th waypoint only, written the way such a functor is written in practice - the rows of the
+  // gradient it does not depend on are left untouched (the optimizer hands over a zeroed output matrix)
+  int every = 1;
   int bad_row = -1, bad_col = 0; double bad_delta = 0;
   template <class W, class G>
   double operator()(const W& q, G& grad) const {
     double v = 0;
     const int n = (int)q.rows();
     const bool use_lin = lin != 0 && ref.rows() == q.rows() && ref.cols() == q.cols();
+    const double kap = every > 1 ? 0.0 : kappa;   // the neighbour coupling needs adjacent rows
     for (int i = 0; i < n; ++i)
       for (int d = 0; d < DIM; ++d) {
+        if (every > 1 && i % every != 0) continue;
         double wi = w0 + w1 * (double)(i % 2);
         double r = r0 * (double)((i + d) % 3 - 1);
         double e = q(i, d) - r;
         double g = wi * e + mu * omega * std::cos(omega * q(i, d));
         v += 0.5 * wi * e * e + mu * std::sin(omega * q(i, d));
-        if (i + 1 < n) { v += kappa * q(i, d) * q(i + 1, d); g += kappa * q(i + 1, d); }
-        if (i > 0) g += kappa * q(i - 1, d);
+        if (i + 1 < n) { v += kap * q(i, d) * q(i + 1, d); g += kap * q(i + 1, d); }
+        if (i > 0) g += kap * q(i - 1, d);
         if (use_lin) { double sgn = (double)((i + 2 * d) % 3 - 1) + 0.5; v += lin * sgn * (q(i, d) - ref(i, d)); g += lin * sgn; }
         grad(i, d) = g;
       }
@@ -249,6 +254,7 @@ inline WaypointCostP<DIM> gen_waypoint_cost(Tape& t) {
   int lm = t.pickw({4, 2, 2});   // no linear-deviation term / in addition / ONLY the linear-deviation term (value exactly 0 at the reference)
   if (lm >= 1) { int k = t.sym(8); c.lin = (k == 0 ? 3 : k) / 4.0; }
   if (lm == 2) { c.w0 = c.w1 = c.kappa = c.mu = 0; }
+  if (t.chance(1, 4)) c.every = 2 + t.range(0, 1);
   return c;
 }
 template <int DIM>
